@@ -481,3 +481,92 @@ def gen_c11(seed, tier='quick', opts=None):
 
 PROFILES['C12'] = gen_c12
 PROFILES['C11'] = gen_c11
+
+
+# ---------------------------------------------------------------- C06
+def gen_c06(seed, tier='quick', opts=None):
+    """C06: a history prefix by several users ending in a checkpoint trigger;
+    the spool system calls after the MARK op are enumerated by the runner."""
+    g = G(seed)
+    opts = dict(opts or {})
+    t0 = T_BASE + g.rint(0, 86400 * 365 * 8)
+    nusers = g.wpick([(1, 3), (2, 3), (g.rint(3, 6), 2), (g.rint(17, 20), 0.6)])
+    users = [{'uid': 1000 + i, 'gid': 1000 + i, 'name': 'u%d' % (1000 + i)} for i in range(nusers)]
+    cfg = base_cfg(g, t0)
+    cfg['late'] = [0.0, 1.0, 0.0, 0.01]
+    tasks = []
+    ops = []
+    t = t0 + 0.5
+    big = g.chance(0.35)
+    nadd = g.wpick([(g.rint(1, 3), 4), (g.rint(4, 10), 3), (g.rint(11, 30), 1), (g.rint(40, 120) if tier != 'quick' else g.rint(20, 45), 0.5)])
+    horizon = 900
+    owners = {}
+    for i in range(nadd):
+        peer = users[i % nusers]['uid'] if nusers > 6 else g.pick(users)['uid']
+        uid = 'k%d@sim' % (i if g.chance(0.85) else g.rint(0, max(0, i - 1)))
+        if uid in owners and owners[uid] != peer:
+            peer = owners[uid]
+        owners[uid] = peer
+        sp = arith_spec(g, uid, t, horizon, {'max_occ': 8, 'p_rule2': 0, 'p_rdate': 0,
+                                           'where': g.wpick([('future', 7), ('past', 2), ('allpast', 0.5)]),
+                                           'no_pre2001': True})
+        if big and g.chance(0.6):
+            # long command lines: the file crosses the 4 KiB write buffer,
+            # single events near the 1 KiB line limit
+            sp['cmd'] = 'echo ' + ('x%d ' % i) * g.rint(40, 230)
+            sp['cmd'] = sp['cmd'][:g.rint(300, 990)]
+        tk = finish_task(len(tasks), sp, lo=t0 - 10)
+        tasks.append(tk)
+        ops.append({'t': round(t, 3), 'op': 'add', 'peer': peer, 'tasks': [tk['id']],
+                    'linger': round(g.uni(0.02, 0.5), 3), 'via': g.pick(['echsq', 'raw'])})
+        t += g.uni(0.01, 2.0)
+    # some cancels
+    for _ in range(g.wpick([(0, 3), (1, 3), (g.rint(2, 5), 1)])):
+        uid = g.pick(sorted(owners))
+        ops.append({'t': round(t, 3), 'op': 'cancel', 'peer': owners[uid], 'uids': [uid],
+                    'linger': round(g.uni(0.02, 0.5), 3)})
+        t += g.uni(0.01, 1.0)
+    # an earlier, undisturbed checkpoint sometimes (so that "last completed" != "none")
+    if g.chance(0.5):
+        t += 61
+        # and more changes after it
+        for _ in range(g.rint(1, 4)):
+            peer = g.pick(users)['uid']
+            uid = 'm%d@sim' % len(tasks)
+            sp = arith_spec(g, uid, t, horizon, {'max_occ': 6, 'p_rule2': 0, 'p_rdate': 0, 'where': 'future', 'no_pre2001': True})
+            tk = finish_task(len(tasks), sp, lo=t0 - 10)
+            tasks.append(tk)
+            owners[uid] = peer
+            ops.append({'t': round(t, 3), 'op': 'add', 'peer': peer, 'tasks': [tk['id']],
+                        'linger': 0.1, 'via': 'echsq'})
+            t += g.uni(0.01, 1.0)
+        if g.chance(0.5):
+            uid = g.pick(sorted(owners))
+            ops.append({'t': round(t, 3), 'op': 'cancel', 'peer': owners[uid], 'uids': [uid], 'linger': 0.1})
+            t += 0.5
+    t += 0.7
+    ops.append({'t': round(t, 3), 'op': 'mark', 'id': 1})
+    trig = g.wpick([('timer', 4), ('get', 2), ('shutdown', 3)])
+    if trig == 'get':
+        uid = g.pick(sorted(owners))
+        ops.append({'t': round(t + 0.1, 3), 'op': 'get', 'peer': owners[uid], 'path': '/queue'})
+        tend = t + g.pick([2, 30, 70])
+    elif trig == 'timer':
+        tend = t + g.pick([61, 75, 130])
+    else:
+        tend = t + g.pick([0.5, 5, 20])
+    ops.append({'t': round(tend, 3), 'op': 'sigterm'})
+    ops.append({'t': round(tend + 1, 3), 'op': 'crash'})
+    ops.sort(key=lambda o: o['t'])
+    e1 = tend + g.pick([2, 30, 300])
+    ops1 = []
+    for u in users[:6]:
+        ops1.append({'t': round(e1 + 0.5, 3), 'op': 'get', 'peer': u['uid'], 'path': '/sched'})
+    ops1.append({'t': round(e1 + g.pick([30, 120, 400]), 3), 'op': 'crash'})
+    plan = {'v': 1, 'engine': 'simd', 'property': 'C06', 'seed': seed, 'cfg': cfg, 'users': users,
+            'tasks': tasks, 'life': {'*': [[0.3, 0, 0.0]]},
+            'epochs': [{'start': t0, 'ops': ops}, {'start': round(e1, 3), 'ops': ops1}]}
+    return plan
+
+
+PROFILES['C06'] = gen_c06
